@@ -41,6 +41,30 @@ def shards(tier, seed):
     return out
 
 
+STATE = {"n": 0}
+
+
+def as_buffer(b, n):
+    """the sense bytes in the kinds of buffer bindings and callers hand over"""
+    import array
+    import ctypes
+
+    k = n % 11
+    if k == 6:
+        return bytes(b)
+    if k == 7:
+        return memoryview(bytes(b))
+    if k == 8:
+        return list(b)
+    if k == 9:
+        return array.array("B", bytes(b))
+    if k == 10:
+        return (ctypes.c_ubyte * len(b))(*b) if len(b) else b
+    if k == 5:
+        return tuple(b)
+    return b
+
+
 def rcclass(rc):
     return {0x70: "current_fixed", 0x71: "deferred_fixed", 0x72: "current_descriptor", 0x73: "deferred_descriptor"}.get(rc, "unknown_response_code")
 
@@ -70,7 +94,9 @@ def check(ctx, mod, ref, buf, want_text=True, sample=False):
     ctx.add("response_codes", "%02x" % rc)
     wit = {"sense": bytes(buf), "response_code": rc, "key": key, "asc": asc, "ascq": ascq, "len": len(buf)}
     for pd in (False, True):
-        mutable = bytearray(buf)
+        mutable = as_buffer(bytearray(buf), STATE["n"])
+        STATE["n"] += 1
+        ctx.add("buffer_types", "ctypes array" if type(mutable).__name__.startswith("c_ubyte_Array") else type(mutable).__name__)
         try:
             exc = mod.SCSICheckCondition(mutable, print_data=pd) if pd else mod.SCSICheckCondition(mutable)
         except Exception as e:  # noqa: BLE001
@@ -78,8 +104,9 @@ def check(ctx, mod, ref, buf, want_text=True, sample=False):
             return
         ctx.count("constructed")
         # a transport may reuse its sense buffer: what the condition reports is what the buffer held when it was raised
-        for i in range(len(mutable)):
-            mutable[i] = 0
+        if isinstance(mutable, (bytearray, list)) or type(mutable).__name__.startswith("c_ubyte_Array"):
+            for i in range(len(mutable)):
+                mutable[i] = 0
         text = None
         try:
             sink = io.StringIO()
@@ -88,6 +115,11 @@ def check(ctx, mod, ref, buf, want_text=True, sample=False):
                 print(exc)
                 if pd:
                     exc.print_data()
+                # the other ways an exception gets converted to text (logging with %r, a list of errors, a traceback)
+                print(repr(exc), "%r" % (exc,), [exc], "{!r:.40}".format(exc))
+                import traceback as _tb
+
+                print("".join(_tb.format_exception_only(type(exc), exc)))
             ctx.count("printed")
         except Exception as e:  # noqa: BLE001
             if fmt is None or deferred:
@@ -106,6 +138,21 @@ def check(ctx, mod, ref, buf, want_text=True, sample=False):
             RECENT.append((exc, exc.data.get("sense_key"), getattr(exc, "asc", None), getattr(exc, "ascq", None), text))
             if len(RECENT) > 3:
                 RECENT.pop(0)
+        if STATE["n"] % 7 in (0, 1) and not pd and isinstance(mutable, (bytes, bytearray, list, tuple)):
+            # exceptions get copied and pickled (across processes, by logging handlers and test runners); only where the
+            # caller's buffer itself can be (a memoryview or ctypes array kept by the exception cannot, in any Python class)
+            import copy as _copy
+            import pickle as _pickle
+
+            for how, fn in (("copy", _copy.copy), ("deepcopy", _copy.deepcopy), ("pickle", lambda x: _pickle.loads(_pickle.dumps(x)))):
+                try:
+                    dup = fn(exc)
+                    ctx.count("copies_checked")
+                    if (getattr(dup, "asc", None), getattr(dup, "ascq", None), str(dup) if text is not None else None) != (getattr(exc, "asc", None), getattr(exc, "ascq", None), text):
+                        ctx.fail("C08:%s_differs" % how, "the %s of a condition reports %r/%r %r, the original %r/%r %r"
+                                 % (how, getattr(dup, "asc", None), getattr(dup, "ascq", None), str(dup)[:60], getattr(exc, "asc", None), getattr(exc, "ascq", None), (text or "")[:60]), wit)
+                except Exception as e:  # noqa: BLE001
+                    ctx.fail("C08:%s_raises.%s" % (how, type(e).__name__), "%s of SCSICheckCondition raised %s: %s" % (how, type(e).__name__, e), wit, exc=e)
         if fmt is None:
             continue
         # values at the SPC positions
@@ -116,6 +163,18 @@ def check(ctx, mod, ref, buf, want_text=True, sample=False):
             ctx.fail("C08:values.%s" % cls, "rc=%02x: reports key/asc/ascq %r/%r/%r, buffer carries %r/%r/%r" % (rc, got_key, got_asc, got_ascq, key, asc, ascq), wit)
         if getattr(exc, "response_code", None) != rc or bool(getattr(exc, "valid", 0)) != bool(buf[0] & 0x80):
             ctx.fail("C08:values.response_code_or_valid", "response_code/valid misreported", wit)
+        if text is not None and (got_key, got_asc, got_ascq) == (key, asc, ascq):
+            # numeric codes quoted in the text are the ones the condition carries
+            import re as _re
+
+            m4 = _re.findall(r"\(0x([0-9A-Fa-f]{4})\)", text)
+            m2 = _re.findall(r"\(0x([0-9A-Fa-f]{2})\)", text)
+            if m4:
+                ctx.count("codes_in_text_checked")
+                if int(m4[-1], 16) != (asc << 8 | ascq):
+                    ctx.fail("C08:text.quotes_other_asc_ascq", "the text says 0x%s, the sense data carries %02X/%02X" % (m4[-1], asc, ascq), wit)
+            if m2 and int(m2[0], 16) != key:
+                ctx.fail("C08:text.quotes_other_sense_key", "the text says sense key 0x%s, the sense data carries %Xh" % (m2[0], key), wit)
         if text is not None and want_text and (got_key, got_asc, got_ascq) == (key, asc, ascq):
             t = ref.norm(text)
             if (asc, ascq) in ref.ASC:
